@@ -172,6 +172,9 @@ def run_conc(pid, tier, seed, plan):
                                 "distinct_states": 0, "transitions": 0, "tlc_wall_s": round(time.time() - t1, 1)})
             log("%s model %s: inductive invariant holds (Apalache, %.1fs)" % (pid, ind["module"], time.time() - t1))
         runners = list(plan.get("runners") or [plan["runner"]])
+        nprimary = len(runners)
+        # extra runners: other classes with the same trace vocabulary (HeterEventQueue); every scenario whose operations they have runs on them too
+        runners += list(plan.get("extra_runners", []))
         exes = build_many([dict(source=r["source"], defines=r.get("defines", ()), sanitize=r.get("sanitize", True), name=r["name"]) for r in runners])
         exe = exes[0]
         # model sensitivity + corpus of counterexample schedules replayed on the real code
@@ -195,13 +198,16 @@ def run_conc(pid, tier, seed, plan):
         quick = tier == "quick"
         for i, sc in enumerate(plan["scenarios"]):
             nthreads = sc["scenario"].count("|") + 1
-            ri = sc.get("runner", i % len(exes))
-            if sc.get("dfs", True):
-                bound = sc.get("bound", 2 if nthreads <= 2 else 1) + (0 if quick else 1)
-                tasks.append((sc["scenario"], ["dfs", bound, sc.get("max", 4000 if quick else 60000)], "s%02d-dfs" % i, ri))
-            nr = sc.get("rand", 300 if quick else 5000)
-            if nr:
-                tasks.append((sc["scenario"], ["rand", seed * 1000 + i, nr], "s%02d-rnd" % i, ri))
+            ris = [sc.get("runner", i % nprimary)]
+            ops = set(op for th in sc["scenario"].split(":")[-1].split("|") for op in th.split(","))
+            ris += [k for k in range(nprimary, len(exes)) if not (ops & set(runners[k].get("lacks", ())))]
+            for ri in ris:
+                if sc.get("dfs", True):
+                    bound = sc.get("bound", 2 if nthreads <= 2 else 1) + (0 if quick else 1)
+                    tasks.append((sc["scenario"], ["dfs", bound, sc.get("max", 4000 if quick else 60000)], "s%02d-dfs-%d" % (i, ri), ri))
+                nr = sc.get("rand", 300 if quick else 5000)
+                if nr:
+                    tasks.append((sc["scenario"], ["rand", seed * 1000 + i, nr], "s%02d-rnd-%d" % (i, ri), ri))
         # uncontrolled stress with the shipped mutex policies under ThreadSanitizer
         stress = plan.get("stress_runners") or []
         sexes = build_many([dict(source=r["source"], defines=r.get("defines", ()), sanitize="thread", name=r["name"], opt="-O1") for r in stress]) if stress else []
